@@ -11,7 +11,8 @@ from crosshair.tracers import NoTracing, ResumedTracing
 C = sys.modules["ctparse.ctparse"]
 TSS = [datetime(2018, 3, 7, 12, 43), datetime(2024, 2, 29, 23, 59, 30), datetime(2021, 12, 31, 0, 0)]
 WIDE = os.environ.get("VQ_WIDE", "0") == "1"
-HOURS = list(range(24)) if WIDE else [0, 1, 9, 11, 12, 13, 20, 23]
+_HLO, _HHI = int(os.environ.get("VQ_HLO", "0")), int(os.environ.get("VQ_HHI", "24"))
+HOURS = list(range(_HLO, _HHI)) if WIDE else [0, 1, 9, 11, 12, 13, 20, 23]
 MINUTES = list(range(60)) if WIDE else [0, 5, 30, 59]
 NH, NM = len(HOURS), len(MINUTES)
 MONTHS_EN = ["january", "february", "march", "april", "may", "june", "july", "august", "september", "october", "november", "december"]
@@ -109,11 +110,15 @@ def why_clock(hi, mi, tsi):
 
 # ------------------------------------------------------------------ C05
 
-YEARS = list(range(1990, 2030)) if WIDE else [1990, 2000, 2029]
+YEARS = [int(v) for v in os.environ["VQ_YEARS"].split(",")] if os.environ.get("VQ_YEARS") else ([1990, 2000, 2016, 2029] if WIDE else [1990, 2000, 2029])
 DAYS = list(range(1, 32)) if WIDE else [1, 12, 29, 31]
 MONTHS = list(range(1, 13)) if WIDE else [2, 3, 12]
 NMO = len(MONTHS)
 NY, ND = len(YEARS), len(DAYS)
+
+
+HI0, MI0 = HOURS.index(9) if 9 in HOURS else 0, MINUTES.index(30)
+DI0, MO0 = DAYS.index(12), MONTHS.index(3)
 
 
 def date_notations(d, m, y):
@@ -147,7 +152,7 @@ def date_check(d, m, y, h, mi):
 def ob_date(di: int, m: int, yi: int, hi: int, mi: int) -> bool:
     """
     pre: 0 <= di < ND and 0 <= m < NMO and 0 <= yi < NY and 0 <= hi < NH and 0 <= mi < NM
-    pre: WIDE or ((hi == 2 and mi == 2) or (di == 1 and m == 1 and yi == 1 and (hi == 0 or hi == 7) and mi != 2))
+    pre: (hi == HI0 and mi == MI0) or (di == DI0 and m == MO0 and yi == 0 and (WIDE or ((hi == 0 or hi == 7) and mi != 2)))
     post: _
     """
     with NoTracing():
